@@ -38,7 +38,7 @@ def init_attrs(tree, ci: ClassInfo):
     if init is None:
         raise AnalysisError(f"{ci.qual}.__init__ not found")
     ps = [mk("param", init.qual, p) for p in init.params[1:]]
-    v.apply_func(init, self_t, ci, ps, {}, None, None)
+    v.apply_func(init, self_t, init.cls, ps, {}, None, None)
     out: Dict[str, List[T]] = {}
     for e in v.events:
         if e.kind == "store_attr" and e.target is self_t:
@@ -50,13 +50,13 @@ def run_method(tree, ci: ClassInfo, name: str, attrs: Dict[str, T]):
     v = VFG(tree, Model(tree))
     v.instance_attrs = dict(attrs)
     self_t = mk("self", ci.qual)
-    f = ci.methods.get(name)
+    f = tree.find_method(ci, name)
     if f is None:
         raise AnalysisError(f"{ci.qual}.{name} not found")
     a = f.node.args
     ps = [mk("param", f.qual, p) for p in f.params[1:]]
     kw = {x.arg: mk("param", f.qual, x.arg) for x in a.kwonlyargs}
-    r = uncopy(v.apply_func(f, self_t, ci, ps, kw, None, None))
+    r = uncopy(v.apply_func(f, self_t, f.cls, ps, kw, None, None))
     stores: Dict[str, List[T]] = {}
     for e in v.events:
         if e.kind == "store_attr" and e.target is self_t:
@@ -89,6 +89,13 @@ def fixed_attrs(ci: ClassInfo, ia: Dict[str, List[T]], env_attr: str) -> Dict[st
     """Instance attributes fixed by __init__ (never re-assigned), by whatever name -- the wrapped environment excepted."""
     mut = mutable_attrs(ci)
     return {k: v[-1] for k, v in ia.items() if k not in mut and k != env_attr}
+
+
+def env_attr(ia: Dict[str, List[T]], ip: Dict[str, T], fallback: str) -> str:
+    """The attribute in which this class's __init__ chain stores the wrapped environment (by role)."""
+    envp = ip.get("env")
+    names = [k for k, vs in ia.items() if envp is not None and any(uncopy(v) is envp for v in vs)]
+    return names[0] if len(names) == 1 else fallback
 
 
 def key_attr(stores: Dict[str, List[T]]) -> Optional[str]:
@@ -129,7 +136,7 @@ def check(tier: str) -> Result:
     ci = tree.classes[W + "JumanjiToDMEnvWrapper"]
     self_t = mk("self", ci.qual)
     _, ia, ip = init_attrs(tree, ci)
-    EA = wrapper_env_attr(tree)
+    EA = env_attr(ia, ip, wrapper_env_attr(tree))
     E = mk("attr", self_t, EA)
     res.add("C15.R2", tree.find_method(ci, "__init__").loc(), "wrappers.JumanjiToDMEnvWrapper.__init__", "the wrapped environment is stored once", [uncopy(x) for x in ia.get(EA, [])] == [ip["env"]], f"{[txt(x) for x in ia.get(EA, [])]}")
     attrs = fixed_attrs(ci, ia, EA)
@@ -141,18 +148,32 @@ def check(tier: str) -> Result:
     rc = calls[0] if len(calls) == 1 else None
     key_schedule(res, "wrappers.JumanjiToDMEnvWrapper.reset", f, st, rc, self_t)
     S = next((k for k, vs in st.items() if rc is not None and any(v is mk("proj", rc, 0) for v in vs)), None)
-    exp = mk("call", mk("ext", "dm_env.restart"), (), (("observation", mk("attr", mk("proj", rc, 1), "observation")),)) if rc is not None else None
-    res.add("C15.R3", f.loc(), "wrappers.JumanjiToDMEnvWrapper.reset", "returns dm_env.restart(observation = inner reset observation)", exp is not None and r is exp, txt(r, 6, 200))
+    def named_args(call: T, order):
+        """keyword view of a call to a dm_env constructor whose positional order is `order`"""
+        if call.kind != "call":
+            return None
+        got = dict(call.args[2])
+        if len(call.args[1]) > len(order) or any(order[i] in got for i in range(len(call.args[1]))):
+            return None
+        for i, a in enumerate(call.args[1]):
+            got[order[i]] = a
+        return got
+
+    exp_obs = mk("attr", mk("proj", rc, 1), "observation") if rc is not None else None
+    got_r = named_args(r, ("observation",)) if ext_name(r) == "dm_env.restart" else None
+    res.add("C15.R3", f.loc(), "wrappers.JumanjiToDMEnvWrapper.reset", "returns dm_env.restart(observation = inner reset observation)",
+            exp_obs is not None and got_r is not None and set(got_r) == {"observation"} and got_r["observation"] is exp_obs, txt(r, 6, 200))
     ss = st.get(S, []) if S is not None else []
     res.add("C15.R2", f.loc(), "wrappers.JumanjiToDMEnvWrapper.reset", "the state attribute <- state returned by the inner reset", rc is not None and ss == [mk("proj", rc, 0)], f"attribute {S}: {[txt(s_, 4, 80) for s_ in ss]}")
     r, st, pr, f, _ = run_method(tree, ci, "step", attrs)
     sc = mk("call", mk("attr", E, "step"), (mk("attr", self_t, S or "_state"), pr["action"]), ())
     ts = mk("proj", sc, 1)
     want = {k: mk("attr", ts, k) for k in ("step_type", "reward", "discount", "observation")}
-    ok = r.kind == "call" and ext_name(r) == "dm_env.TimeStep" and not r.args[1] and dict(r.args[2]) == want
+    got_s = named_args(r, ("step_type", "reward", "discount", "observation")) if ext_name(r) == "dm_env.TimeStep" else None
+    ok = got_s is not None and got_s == want
     why = "field-to-field"
     if not ok and r.kind == "call":
-        got = dict(r.args[2])
+        got = got_s if got_s is not None else dict(r.args[2])
         bad = {k: txt(got.get(k), 3, 50) for k in want if got.get(k) is not want[k]}
         why = f"mis-wired {bad}" if bad else txt(r, 5, 200)
     res.add("C15.R3", f.loc(), "wrappers.JumanjiToDMEnvWrapper.step", "dm_env.TimeStep(step_type, reward, discount, observation) taken field-to-field from the inner step on self._state", ok, why)
@@ -162,6 +183,7 @@ def check(tier: str) -> Result:
     ci = tree.classes[W + "JumanjiToGymWrapper"]
     self_t = mk("self", ci.qual)
     _, ia, ip = init_attrs(tree, ci)
+    EA = env_attr(ia, ip, wrapper_env_attr(tree))
     E = mk("attr", self_t, EA)
     res.add("C15.R2", tree.find_method(ci, "__init__").loc(), "wrappers.JumanjiToGymWrapper.__init__", "the wrapped environment is stored once", [uncopy(x) for x in ia.get(EA, [])] == [ip["env"]], f"{[txt(x) for x in ia.get(EA, [])]}")
     attrs = fixed_attrs(ci, ia, EA)
@@ -180,25 +202,21 @@ def check(tier: str) -> Result:
     res.add("C15.R1", f.loc(), "wrappers.JumanjiToGymWrapper.seed", "seed(s) stores PRNGKey(s)", ok, f"key attribute {K}: {[txt(k, 3, 60) for k in ks]}")
     r, st, pr, f = reset_facts
     S = next((k for k, vs in st.items() if rc is not None and any(v is mk("proj", rc, 0) for v in vs)), None)
-    # seed before split (statement order)
-    body = f.node.body
-    i_seed = i_split = None
-    for i, stmt in enumerate(body):
-        for n in ast.walk(stmt):
-            if isinstance(n, ast.Call) and isinstance(n.func, ast.Attribute) and n.func.attr == "seed" and i_seed is None:
-                i_seed = i
-            if isinstance(n, ast.Call) and ast.unparse(n.func).endswith("random.split") and i_split is None:
-                i_split = i
-    res.add("C15.R1", f.loc(), "wrappers.JumanjiToGymWrapper.reset", "reset(seed=...) re-seeds before the key is split", i_seed is not None and i_split is not None and i_seed < i_split,
-            f"seed at statement {i_seed}, split at statement {i_split}")
-    # the guard must be `seed is not None` (every given seed, including 0, re-seeds)
+    # seed before split: the PRNGKey(seed) store into the key attribute precedes the store of the split half
     _, _, _, _, vreset = run_method(tree, ci, "reset", attrs)
     seedp = pr["seed"]
-    guards = [uncopy(e.target) for e in vreset.events if e.kind == "py_branch" and e.name == "if" and e.func is f and e.target is not None and contains(e.target, seedp)]
-    good = [g for g in guards if (g.kind == "cmp" and g.args[0] == "isnot" and g.args[1] is seedp and g.args[2] is NONE) or
-            (g.kind == "un" and g.args[0] == "not" and g.args[1].kind == "cmp" and g.args[1].args[0] == "is" and g.args[1].args[1] is seedp and g.args[1].args[2] is NONE)]
-    res.add("C15.R1", f.loc(), "wrappers.JumanjiToGymWrapper.reset", "every given seed re-seeds (guard is `seed is not None`, not truthiness)", bool(good) and len(guards) == len(good),
-            f"guard(s) {[txt(g, 3, 50) for g in guards]}" + ("" if good and len(guards) == len(good) else " -- a truthiness test ignores seed=0"))
+    kev = [e for e in vreset.events if e.kind == "store_attr" and e.target is self_t and e.name == K] if K is not None else []
+    i_seed = next((i for i, e in enumerate(kev) if ext_name(uncopy(e.value)) == "jax.random.PRNGKey" and contains(e.value, seedp)), None)
+    i_split = next((i for i, e in enumerate(kev) if uncopy(e.value).kind == "proj" and ext_name(uncopy(e.value).args[0]) == "jax.random.split"), None)
+    res.add("C15.R1", f.loc(), "wrappers.JumanjiToGymWrapper.reset", "reset(seed=...) re-seeds before the key is split", i_seed is not None and i_split is not None and i_seed < i_split,
+            f"stores into self.{K} in order: {[txt(uncopy(e.value), 3, 40) for e in kev]}")
+    # the re-seeding runs exactly under `seed is not None` (every given seed, including 0, re-seeds)
+    from .common import norm_path
+    conds = [(t, pol) for t, pol, _ in norm_path(kev[i_seed].path)] if i_seed is not None else []
+    on_seed = [(t, pol) for t, pol in conds if contains(t, seedp)]
+    good = [1 for t, pol in on_seed if t.kind == "cmp" and t.args[0] == "is" and t.args[1] is seedp and t.args[2] is NONE and not pol]
+    res.add("C15.R1", f.loc(), "wrappers.JumanjiToGymWrapper.reset", "every given seed re-seeds (guard is `seed is not None`, not truthiness)", bool(good) and len(good) == len(on_seed),
+            f"re-seeding runs under {[('' if pol else 'not ') + txt(t, 3, 50) for t, pol in on_seed]}" + ("" if good and len(good) == len(on_seed) else " -- a truthiness test ignores seed=0"))
     ss = st.get(S, []) if S is not None else []
     res.add("C15.R2", f.loc(), "wrappers.JumanjiToGymWrapper.reset", "the state attribute <- state returned by the inner reset", rc is not None and ss == [mk("proj", rc, 0)], f"attribute {S}: {[txt(s_, 4, 80) for s_ in ss]}")
     if rc is not None and r.kind == "tuple" and len(r.args[0]) == 2:
@@ -250,6 +268,7 @@ def check(tier: str) -> Result:
     ci = tree.classes[W + "MultiToSingleWrapper"]
     self_t = mk("self", ci.qual)
     _, ia, ip = init_attrs(tree, ci)
+    EA = env_attr(ia, ip, wrapper_env_attr(tree))
     E = mk("attr", self_t, EA)
     init = ci.methods.get("__init__")
     dflt = {}
